@@ -372,7 +372,32 @@ func NewSupplyMonitor(e *Env) *Monitor {
 		return
 	}
 	var minted, burned sdk.Coins
+	// "by exactly that order's amount": an order is paid out once. The ids that have completed are
+	// remembered for the whole history - across export/import boundaries too - and every order ever
+	// seen completed must stay completed with its amount.
+	completedAmt := map[uint64]sdk.Coin{}
 	mon.AfterBegin = func(e *Env, pre, post *lab.Obs, resp abci.ResponseBeginBlock) {
+		for _, po := range post.POs {
+			if po.Status == enttypes.StatusCompleted {
+				continue
+			}
+			if amt, was := completedAmt[po.Id]; was {
+				viol("completed-order-reopened", "begin", "purchase order %d had completed (%s paid out) and is %s again", po.Id, amt, po.Status)
+			}
+		}
+		for _, po := range pre.POs {
+			if amt, was := completedAmt[po.Id]; was && po.Status != enttypes.StatusCompleted {
+				viol("completed-order-reopened", "before-begin", "purchase order %d had completed (%s paid out) and is %s again", po.Id, amt, po.Status)
+			}
+		}
+		for _, po := range post.POs {
+			if po.Status == enttypes.StatusCompleted {
+				if amt, was := completedAmt[po.Id]; was && amt.String() != po.Amount.String() {
+					viol("completed-order-reopened", "amount", "completed purchase order %d now shows %s, it was paid out with %s", po.Id, po.Amount, amt)
+				}
+				completedAmt[po.Id] = po.Amount
+			}
+		}
 		startSupply = pre.Supply
 		completingAmt = sdk.NewCoins()
 		minted, burned = sdk.NewCoins(), sdk.NewCoins()
@@ -614,7 +639,7 @@ func NewLockedBooksMonitor(e *Env) *Monitor {
 		books(o, "committed")
 		// the four queries of the property at the client boundary
 		ctx := sdk.WrapSDKContext(e.L.QueryCtx())
-		ek := e.L.App.EnterpriseKeeper
+		ek := enttypes.NewQueryClient(lab.ABCIConn{App: e.L.App})
 		tl, err1 := ek.TotalLocked(ctx, &enttypes.QueryTotalLockedRequest{})
 		ts, err2 := ek.TotalSpentEFUND(ctx, &enttypes.QueryTotalSpentEFUNDRequest{})
 		if err1 != nil || err2 != nil {
@@ -788,7 +813,9 @@ func NewSupplyQueriesMonitor(e *Env) *Monitor {
 	mon.AfterBlock = func(e *Env, o *lab.Obs) {
 		ctx := e.L.QueryCtx()
 		g := sdk.WrapSDKContext(ctx)
-		ek := e.L.App.EnterpriseKeeper
+		// served the way a client is served: through the ABCI Query entry point and the services as
+		// the module registered them (AfterBlock: the last committed state)
+		ek := enttypes.NewQueryClient(lab.ABCIConn{App: e.L.App})
 		native := o.EntParams.Denom
 		bankSupply := sdk.NewCoins()
 		e.L.App.BankKeeper.IterateTotalSupply(ctx, func(c sdk.Coin) bool { bankSupply = bankSupply.Add(c); return false })
